@@ -35,7 +35,7 @@ def corpus(tier: str, seed: int) -> list[str]:
     rnd = random.Random(seed)
     rnd.shuffle(descs)
     texts = []
-    for d in descs[: (3000 if tier == "quick" else 20000)]:
+    for d in descs:
         t = render_gen(d, seed)
         if not has_error(t):
             texts.append(t)
